@@ -79,6 +79,7 @@ type outcome struct {
 	seen    []string
 	res     string
 	atts    []any
+	subs    []any
 }
 
 func seenOf(k *kindDef) []string {
@@ -129,6 +130,7 @@ func compareAll(k *kindDef, cs []cand, o *outcome) {
 			o.differs = false
 		}
 		o.atts = append(o.atts, r.atts...)
+		o.subs = append(o.subs, r.subs...)
 	}
 	if len(cs) == 0 {
 		o.res = "err:no candidate pair"
@@ -137,7 +139,7 @@ func compareAll(k *kindDef, cs []cand, o *outcome) {
 }
 
 func runCheck(kinds map[string]*kindDef, a checkArgs) outcome {
-	o := outcome{seen: []string{}, res: "ok", atts: []any{}}
+	o := outcome{seen: []string{}, res: "ok", atts: []any{}, subs: []any{}}
 	fields := append([]string{}, a.Fields...)
 	sort.Strings(fields)
 	if a.Mode == "cross" {
@@ -183,6 +185,39 @@ func runCheck(kinds map[string]*kindDef, a checkArgs) outcome {
 			ds = append(ds, f+":="+show(v))
 		}
 		compareAll(k, []cand{{x, y, strings.Join(ds, "; ")}}, &o)
+	case "subst-redeploy":
+		if k.redeploy == nil {
+			o.res = "err:no re-deployment history for kind " + k.name
+			return o
+		}
+		x, y := k.base(), k.base()
+		for _, it := range []*item{x, y} {
+			for f, v := range k.redeploy.a {
+				if err := setPath(it.obj, f, v, it.anys); err != nil {
+					o.res = "err:set " + f + ": " + err.Error()
+					return o
+				}
+			}
+		}
+		var ds []string
+		for _, f := range fields {
+			v, ok := k.redeploy.alt[f]
+			if !ok {
+				v, ok = k.alt[f]
+			}
+			if !ok {
+				o.res = "err:no second value for field " + f
+				return o
+			}
+			if err := setPath(y.obj, f, v, y.anys); err != nil {
+				o.res = "err:set " + f + ": " + err.Error()
+				return o
+			}
+			ds = append(ds, f+":="+show(v))
+		}
+		x.after = redeployPrefix(k.name, k.redeploy.c0)
+		y.after = x.after
+		compareAll(k, []cand{{x, y, "after [c0 = base claim observed at nonce 1 under " + tsA + "; bridge re-deployed as " + tsB + "]: a = base with nonce 1, height 19000250, compass " + tsB + "; b = a with " + strings.Join(ds, "; ")}}, &o)
 	case "shift":
 		mk, ok := k.shift[strings.Join(fields, ",")]
 		if !ok {
@@ -225,7 +260,7 @@ func TestDriveSignBinding(t *testing.T) {
 				sort.Strings(a.Fields)
 				o := runCheck(kinds, a)
 				em.Emit(map[string]any{"h": h.H, "i": i + 1, "act": "Check", "args": a, "res": o.res, "differs": o.differs,
-					"base_hex": o.baseHex, "pert_hex": o.pertHex, "fields_seen": o.seen, "detail": o.detail, "atts": o.atts})
+					"base_hex": o.baseHex, "pert_hex": o.pertHex, "fields_seen": o.seen, "detail": o.detail, "atts": o.atts, "subs": o.subs})
 			case "Survey":
 				var a surveyArgs
 				if err := json.Unmarshal(st.Args, &a); err != nil {
